@@ -534,6 +534,11 @@ var lexLines = []string{
 	"error: /e/ (space)",
 	"ws: /[ \\t]*/ (space)",
 	"idx: /{letter}+/",
+	"letters = /[a-zA-Z_]+{digitz}/",
+	"idl: /{letters}/",
+	"rec1 = /a{rec2}/",
+	"rec2 = /b{rec1}/",
+	"idr: /{rec1}/",
 	"badre1: /[a-/",
 	"badre2: /\\p{Foo}+/",
 	"badre3: /a{3,2}/",
@@ -600,8 +605,20 @@ var parseLines = []string{
 const validDoc1 = synthHeader + ":: lexer\n\nident: /[a-zA-Z_]+/\nnum: /[0-9]+/\n'+': /\\+/\n'-': /-/\n'(': /\\(/\n')': /\\)/\n';': /;/\n'π': /π/\nstr {string}: /\"[^\"]*\"/\nws: /[ \\t\\r\\n]+/ (space)\n\n:: parser\n\n%input root;\n\nroot: (item | manyopt)+ ;\nitem -> Item: ident '+' ident ';' | num ';' ;\n/* π😀 */ manyopt: ident? num? '+'? '-'? '('? ')'? 'π'? str? str? ';' ;\n"
 const validDoc2 = synthHeader + ":: lexer\n\nident: /[a-zA-Z_]+/\nnum: /[0-9]+/\n'+': /\\+/\n'*': /\\*/\n'(': /\\(/\n')': /\\)/\n';': /;/\nws: /[ \\t\\r\\n]+/ (space)\n\n:: parser\n\n%input root;\n%left '+';\n%left '*';\n\nroot -> Root: stmt+ ;\nstmt -> Stmt: expr ';' ;\nexpr -> Expr: expr '+' expr | expr '*' expr | '(' expr ')' | ident | num ;\n"
 
+// deeply nested groups, lookaheads and quantifiers around plain symbol references
+const validDoc3 = synthHeader + ":: lexer\n\nident: /[a-zA-Z_]+/\nnum: /[0-9]+/\n'(': /\\(/\n')': /\\)/\n';': /;/\nws: /[ \\t\\r\\n]+/ (space)\n\n:: parser\n\n%input root;\n\nroot: deep+ ;\ndeep -> Deep: '(' ((((((((((((ident num?)))))))))))) ')' ';' | nested ;\nnested: (?= deep) ((((((((((((num)))))))))))) ';' ;\n"
+
+// goldenSymbols: documents whose structure is known to the harness. Every occurrence of
+// the listed words in them is a symbol (declared in the same document), so go-to-definition
+// on it must find something. This is the one place where an EMPTY answer is judged.
+var goldenSymbols = map[string][]string{
+	validDoc1: {"root", "item", "manyopt", "ident", "num", "str"},
+	validDoc2: {"root", "stmt", "expr", "ident", "num"},
+	validDoc3: {"root", "deep", "nested", "ident", "num"},
+}
+
 func loadBaseGrammars() {
-	baseGrammars = append(baseGrammars, validDoc1, validDoc2)
+	baseGrammars = append(baseGrammars, validDoc1, validDoc2, validDoc3)
 	repo := os.Getenv("VERIF_REPO")
 	if repo == "" {
 		repo = "/repo"
@@ -637,6 +654,9 @@ func genDoc(src *sim.Src, prev string) string {
 	var text string
 	if f.Chance(1, 12) {
 		return cornerDocs[f.Draw(len(cornerDocs))]
+	}
+	if f.Chance(1, 10) {
+		return []string{validDoc1, validDoc2, validDoc3}[f.Draw(3)] // unmodified: see goldenSymbols
 	}
 	switch {
 	case prev != "" && f.Chance(6, 10):
@@ -809,6 +829,11 @@ func genScript(src *sim.Src) *script {
 	}
 	uris := []string{"file:///ws0/a.tm", "file:///ws0/dir/b.tm", "file:///ws0/%D0%B6.tm"}
 	nuris := 1 + src.Draw(3)
+	if src.Chance(1, 6) {
+		// documents outside the workspace folder(s) announced by initialize
+		uris = []string{"file:///elsewhere/c.tm", "file:///ws0/a.tm", "file:///ws00/a.tm", "file:///d.tm"}
+		nuris = 1 + src.Draw(4)
+	}
 	if src.Chance(1, 8) {
 		// documents of other schemes that share their path with a file document (an
 		// editor's diff view, a virtual file system): different documents all the same
@@ -1495,6 +1520,9 @@ func (st *runState) checkDefinition(o *op, id string, m *wireMsg) {
 	}
 	if len(locs) > 0 {
 		st.res.Probe("definition-nonempty")
+		if _, ok := goldenSymbols[text]; ok {
+			st.res.Probe("definition-on-golden-document")
+		}
 		okName := isSymbolName(name)
 		if !okName {
 			sig := "definition-not-identifier"
@@ -1525,6 +1553,14 @@ func (st *runState) checkDefinition(o *op, id string, m *wireMsg) {
 		}
 	} else {
 		st.res.Probe("definition-empty")
+		if names, ok := goldenSymbols[text]; ok && o.posValid && !cancelled {
+			for _, nm := range names {
+				if nm == o.onIdent {
+					st.fail("C23.I5", "definition-empty-on-declared-symbol", "definition id=%s at %v on the symbol %q of a well-formed document answered no location at all; %q is declared and referenced in that document", id, o.pos, nm, nm)
+					return
+				}
+			}
+		}
 	}
 	// refinement: equal to a fresh server holding exactly the latest content
 	if !cancelled {
@@ -1711,7 +1747,8 @@ func (st *runState) simulate(faultsOn bool, stall, chunkMode int) {
 
 	// quiescent tail: everything has been delivered; release what is parked until
 	// nothing is, then check obligations (I7), then EOF and termination.
-	budget := 2*(len(st.sc.ops)+1) + 8
+	// (each cancellation poll of a parse of a large document is one release: give those room)
+	budget := 2*(len(st.sc.ops)+1) + 8 + 1000
 	for i := 0; i < budget && res.Violation == nil; i++ {
 		parkedNow := st.yard.snapshot()
 		if len(parkedNow) == 0 {
